@@ -1,7 +1,7 @@
 (* C18 — Firmware update: only a signed complete image boots; writes stay in the spare slot.
    Property theorems only: each is closed by `exact` of a lemma proved in C18/Proofs.v.
    The model (C18/Model.v) follows supla_update.c with the repairs docs/fixes/C18_{clamp,offset,disconnect,
-   content_length}.diff (`FIXED`); `C18_old_code_refuted` shows what the code without them does.
+   content_length,finished}.diff (`FIXED`); `C18_old_code_refuted` shows what the code without them does.
    Every theorem holds for every flash map, running slot, content of the uninitialised header buffer (`heap`),
    initial flash content, script of flash failures and every signature oracle `verify` (SHA-256/RSA are not
    modelled; `verify body signature` stands for rsa_sha256_verify over SHA-256(body)). *)
@@ -104,7 +104,8 @@ Proof. exact C18_base_is_inactive_slot_thm. Qed.
 Print Assumptions C18_base_is_inactive_slot.
 
 (* the code before the repairs (each witness is replayed on the real code: corpus/C18/long_body, header_split_arena,
-   short_body_disconnect, clen_wrap) *)
+   short_body_disconnect, clen_wrap, segment_after_finish); `OLD_DONE` = callbacks still delivered after the restart
+   request, i.e. the code without docs/fixes/C18_finished.diff *)
 Theorem C18_old_code_refuted :
   expected (fst (w_run OLD_CLAMP w_long)) = 5000 /\ has (erase_at (1052672 + 12288)) (w_run OLD_CLAMP w_long) = true /\
   has (write_from (1052672 + 8192)) (w_run OLD_CLAMP w_long) = true /\ has (erase_at (1052672 + 12288)) (w_run OLD_ALL w_long) = true /\
@@ -115,7 +116,11 @@ Theorem C18_old_code_refuted :
   has is_restart (w_run OLD_DISC w_short) = false /\ halted (fst (w_run OLD_DISC w_short)) = false /\
   has is_restart (w_run FIXED w_short) = true /\
   expected (fst (w_run OLD_CLEN w_wrap)) = 5000 /\ has is_finish (w_run OLD_CLEN w_wrap) = true /\
-  has is_finish (w_run FIXED w_wrap) = false /\ has is_restart (w_run FIXED w_wrap) = true.
+  has is_finish (w_run FIXED w_wrap) = false /\ has is_restart (w_run FIXED w_wrap) = true /\
+  has is_finish (w_run OLD_DONE w_extra) = true /\ has (write_from (1052672 + 19472)) (w_run OLD_DONE w_extra) = true /\
+  has is_restart (w_run OLD_DONE w_extra) = true /\
+  has is_finish (w_run FIXED w_extra) = true /\ has (write_from (1052672 + 19472)) (w_run FIXED w_extra) = false /\
+  has is_restart (w_run FIXED w_extra) = false.
 Proof. exact C18_old_code_refuted_thm. Qed.
 Print Assumptions C18_old_code_refuted.
 
